@@ -265,7 +265,21 @@ func (g *gen) e2eCase(id int) *e2eCase {
 			return nil
 		}
 		o.buffered, o.resources, o.useBase = tri(), tri(), tri()
-		switch r.Intn(6) {
+		switch r.Intn(14) {
+		case 5: // a name of the preset re-bound to another namespace
+			o.prefixes = []string{"rdfa-context", "schema:https://schema.org/"}
+		case 6: // one name bound twice
+			o.prefixes = []string{"ex:http://example.org/ns#", "ex:http://example.org/"}
+		case 7: // two names for one namespace
+			o.prefixes = []string{"a:http://example.org/ns#", "b:http://example.org/ns#"}
+		case 8: // nested namespaces
+			o.prefixes = []string{"e:http://example.org/", "en:http://example.org/ns#", "end:http://example.org/ns/deep#"}
+		case 9: // preset names taken over by other namespaces
+			o.prefixes = []string{"rdfa-context", "dc:http://example.org/ns#", "foaf:http://schema.org/", "rdfs:http://example.org/"}
+		case 10: // reset, then a list; the same binding twice
+			o.prefixes = []string{"rdfa-context", "none", "ex:http://example.org/ns#", "ex:http://example.org/ns#", "s:http://schema.org/"}
+		case 11: // re-bound back and forth
+			o.prefixes = []string{"p:http://schema.org/", "p:http://example.org/ns#", "p:http://schema.org/", "q:http://example.org/ns#"}
 		case 0:
 			o.prefixes = []string{"none"}
 		case 1:
